@@ -37,9 +37,10 @@ type (
 		X, I Expr
 	}
 	EQuant struct {
-		Forall bool
-		Vars   []QVar
-		Body   Expr
+		Forall   bool
+		Vars     []QVar
+		Body     Expr
+		Triggers [][]Expr // explicit instantiation patterns: {a, b} {c}
 	}
 	ECond struct{ C, A, B Expr }
 	EType struct{ Text string } // type(T)
@@ -143,7 +144,7 @@ func lexSpec(src string) ([]tok, error) {
 		if matched {
 			continue
 		}
-		if strings.ContainsRune("()[],.+-*/%!<>?:#", rune(c)) {
+		if strings.ContainsRune("()[],.+-*/%!<>?:#{}", rune(c)) {
 			out = append(out, tok{"op", string(c)})
 			i++
 			continue
@@ -296,7 +297,7 @@ func (sp *specParser) primary() Expr {
 				}
 				ty := "int"
 				if sp.peek().k == "id" || sp.isOp("*") || sp.isOp("[") {
-					ty = sp.typeText([]string{",", "::"})
+					ty = sp.typeText([]string{",", "::", "{"})
 				}
 				q.Vars = append(q.Vars, QVar{n.s, ty})
 				if sp.isOp(",") {
@@ -304,6 +305,20 @@ func (sp *specParser) primary() Expr {
 					continue
 				}
 				break
+			}
+			for sp.isOp("{") {
+				sp.p++
+				var grp []Expr
+				for {
+					grp = append(grp, sp.expr(0))
+					if sp.isOp(",") {
+						sp.p++
+						continue
+					}
+					break
+				}
+				sp.expect("}")
+				q.Triggers = append(q.Triggers, grp)
 			}
 			sp.expect("::")
 			q.Body = sp.expr(0)
